@@ -156,7 +156,7 @@ def uvalue(rng, vg, t: gen.T, pick, ns, fam):
 def union_part(ctx):
     from mashumaro.codecs.basic import BasicEncoder
     rng = random.Random(f"c02-union-{ctx.seed}")
-    for i in range(ctx.budget(70, 500)):
+    for i in range(ctx.budget(150, 800)):
         mixin = rng.random() < 0.5
         sg = gen.SchemaGen(rng, gen.GenOpts(depth=2, named=True, mixin=mixin))
         sg.tag = f"u7{i}_"
@@ -368,7 +368,7 @@ def _samename_obs(sc, entry, vsrc):
 def samename_part(ctx):
     from mashumaro.codecs.basic import BasicEncoder
     rng = random.Random(f"c02-samename-{ctx.seed}")
-    for _ in range(ctx.budget(40, 300)):
+    for _ in range(ctx.budget(60, 300)):
         i, mods, specs, classes = _samename_scenario(rng)
         ann, use, cn, mk = _samename_shape(rng, mods, specs, classes)
         mixin_holder = ann == "Holder" and rng.random() < 0.5
@@ -533,7 +533,7 @@ def _seq_expected(src, doc, calls):
 
 def sequence_part(ctx):
     rng = random.Random(f"c02-sequence-{ctx.seed}")
-    for _ in range(ctx.budget(60, 400)):
+    for _ in range(ctx.budget(80, 400)):
         src, vsrc, fmts, doc = _seq_scenario(rng)
         entries = ["dict"] + fmts
         dialects = rng.sample(["Same", "Unrelated", "IntAsStr"], 2)
